@@ -72,10 +72,10 @@ _TIER = 'quick'
 
 
 def menus(tier, nleaves):
-    if tier == 'quick' and nleaves >= 3:
-        return [[(None, None), (8, None), (8, 3)], DECIMAL] if nleaves >= 4 else [[(None, None), (8, None), (8, 3), (16, None)], DECIMAL]
+    if tier == 'quick' and nleaves == 3:
+        return [[(None, None), (8, None), (8, 3), (16, None)], DECIMAL]
     if nleaves >= 4:
-        return [[(0, None), (8, None), (8, 3), (16, None)], DECIMAL]
+        return [[(0, None), (8, None), (8, 3), (16, None)], DECIMAL] if tier == 'thorough' else [[(8, None), (4, None), (12, None)]]
     return [DYADIC, DECIMAL]
 
 
@@ -87,6 +87,11 @@ def _work(chunk):
         return acc
     nmax = 4
     structs = [(par, links) for par, links in LY.structures(nmax, 2, 3) if not LY.leaf_cycle(par, links)]
+    # five tasks: every hierarchy x every single link (thorough: every pair of links)
+    for par in LY.forests(5):
+        for links in LY.link_sets(par, 1 if _TIER == 'quick' else 2):
+            if not LY.direct_cycle(5, links) and not LY.leaf_cycle(par, links):
+                structs.append((par, links))
     for par, links in structs[i::n]:
         lv = [k for k in range(len(par)) if LY.is_leaf(par, k)]
         summary_link = any((not LY.is_leaf(par, p)) or (not LY.is_leaf(par, s)) for p, s in links)
